@@ -1,4 +1,5 @@
 import ScVerif.C13.WF
+import ScVerif.C13.HeapLemmas
 /-
 C13 — lemmas: the wrapper's shared state and the reference's frames stay related along every joint
 run, so the two runs produce the same transcript.
@@ -110,90 +111,109 @@ theorem rel_header {w g} (h : RelRun w g) : Wrap.header w = GrpcRef.header g := 
   · simp [hc] at h6
     simp [hc, h6, h1, h2, h3, h4]
 
+/-- While the handler runs the message objects are well formed (needed for the payload of later
+messages); once it has returned or was aborted no message passes any more. -/
+def Hp : Srv → Wrap.State → Prop
+  | .running _, w => Wrap.HeapInv w
+  | _, _ => True
+
+theorem rel_xfer {w g} (h : RelRun w g) (d : Dir) (m : Nat) (reuse : Bool) :
+    RelRun (Wrap.xfer Cfg.current w d m reuse).1 g := by
+  obtain ⟨h1, h2, h3, h4, h5, h6⟩ := h
+  obtain ⟨f1, f2, f3, f4, f5⟩ := Wrap.xfer_fields Cfg.current w d m reuse
+  refine ⟨by rw [f4]; exact h1, h2, by rw [f5]; exact h3, h4, by rw [f3]; exact h5, ?_⟩
+  rw [f2, f1]; exact h6
+
 /-- The joint runs over the wrapper's state and over the reference's frames agree whenever the two
 states are related: by induction over the run (36 cases of `go`). -/
-theorem go_eq (fin : Fin) (w : Wrap.State) (cc : Bool) (srv : Srv) (cs : List COp) :
-    ∀ g, Rel srv w g → go (Wrap.impl Cfg.current) fin w cc srv cs = go GrpcRef.impl fin g cc srv cs := by
-  fun_induction go (Wrap.impl Cfg.current) fin w cc srv cs
+theorem go_eq (fin : Fin) (reuse : Bool) (w : Wrap.State) (cc : Bool) (srv : Srv) (cs : List COp) :
+    ∀ g, Rel srv w g → Hp srv w →
+      go (Wrap.impl Cfg.current) fin reuse w cc srv cs = go GrpcRef.impl fin reuse g cc srv cs := by
+  fun_induction go (Wrap.impl Cfg.current) fin reuse w cc srv cs
   case case1 s cc md ss cs ih =>
-    intro g h
+    intro g h hq
     have := rel_setHeader h md
     simp only [go]
-    rw [ih _ this.1]
+    rw [ih _ this.1 (Wrap.heapInv_setHeader hq _ md)]
     simp only [Wrap.impl, GrpcRef.impl, this.2]
   case case2 s cc md ss cs ih =>
-    intro g h
+    intro g h hq
     have := rel_sendHeader h md
     simp only [go]
-    rw [ih _ this.1]
+    rw [ih _ this.1 (Wrap.heapInv_sendHeader hq md)]
     simp only [Wrap.impl, GrpcRef.impl, this.2]
   case case3 s cc md ss cs ih =>
-    intro g h
+    intro g h hq
     simp only [go]
-    exact ih _ (rel_setTrailer h md)
+    exact ih _ (rel_setTrailer h md) (Wrap.heapInv_setTrailer hq md)
   case case4 s cc cs ih =>
-    intro g h
+    intro g h hq
     simp only [go]
-    exact ih _ (rel_close h fin)
+    exact ih _ (rel_close h fin) trivial
   case case5 s cc m ss cs ih =>
-    intro g h
+    intro g h hq
+    have hps := rel_preSend h
+    have hqs := Wrap.heapInv_preSend hq
+    have hpay := Wrap.xfer_payload hqs Cfg.current rfl .s2c m reuse
     simp only [go]
-    rw [ih _ (rel_preSend h)]
-    rfl
+    rw [ih _ (rel_xfer hps .s2c m reuse) (Wrap.xfer_heapInv hqs Cfg.current rfl .s2c m reuse)]
+    simp only [Wrap.impl, GrpcRef.impl, hpay]
   case case6 s cc m ss cs md hmd ih =>
-    intro g h
+    intro g h hq
     have hp := rel_preSend h
     have hh := rel_header hp
     simp only [Wrap.impl] at hmd
     simp only [go, GrpcRef.impl, ← hh, hmd]
-    exact congrArg _ (ih _ hp)
+    exact congrArg _ (ih _ hp (Wrap.heapInv_preSend hq))
   case case7 s cc m ss cs hmd =>
-    intro g h
+    intro g h hq
     have hp := rel_preSend h
     have hh := rel_header hp
     simp only [Wrap.impl] at hmd
     simp only [go, GrpcRef.impl, ← hh, hmd]
   case case8 s m ss cs ih =>
-    intro g h
+    intro g h hq
     simp only [go]
-    exact congrArg _ (ih _ (rel_preSend h))
-  case case9 => intro g h; simp only [go]
+    exact congrArg _ (ih _ (rel_preSend h) (Wrap.heapInv_preSend hq))
+  case case9 => intro g h hq; simp only [go]
   case case10 x cc m tl hd tl1 h1 h2 h3 =>
-    intro g h
+    intro g h hq
     cases hd <;> first | (exact absurd rfl h1) | (exact absurd rfl h2) | skip
     all_goals first | (simp only [go]; done) | skip
     all_goals (cases cc <;> first | (exact absurd rfl (h3 rfl)) | (simp only [go]))
   case case11 s ss cs ih =>
-    intro g h
+    intro g h hq
     simp only [go]
-    exact congrArg _ (ih _ h)
+    exact congrArg _ (ih _ h hq)
   case case12 s ss m cs ih =>
-    intro g h
+    intro g h hq
+    have hpay := Wrap.xfer_payload hq Cfg.current rfl .c2s m reuse
     simp only [go]
-    exact congrArg _ (congrArg _ (ih _ h))
+    rw [ih _ (rel_xfer h .c2s m reuse) (Wrap.xfer_heapInv hq Cfg.current rfl .c2s m reuse)]
+    simp only [Wrap.impl, GrpcRef.impl, hpay]
   case case13 s ss cs ih =>
-    intro g h
-    have := ih _ h
+    intro g h hq
+    have := ih _ h hq
     simp only [go] at this ⊢
     exact congrArg _ this
   case case14 s ss cs md hmd ih =>
-    intro g h
+    intro g h hq
     have hh := rel_header h
     simp only [Wrap.impl] at hmd
     simp only [go, GrpcRef.impl, ← hh, hmd]
-    exact congrArg _ (ih _ h)
+    exact congrArg _ (ih _ h hq)
   case case15 s ss cs hmd =>
-    intro g h
+    intro g h hq
     have hh := rel_header h
     simp only [Wrap.impl] at hmd
     simp only [go, GrpcRef.impl, ← hh, hmd]
   case case16 s tl a cs ih =>
-    intro g h
+    intro g h hq
     simp only [go]
-    exact congrArg _ (congrArg _ (ih _ (rel_abort h a)))
-  case case17 => intro g h; simp only [go]
+    exact congrArg _ (congrArg _ (ih _ (rel_abort h a) trivial))
+  case case17 => intro g h hq; simp only [go]
   case case18 x tl hd tl1 h1 h2 h3 h4 =>
-    intro g h
+    intro g h hq
     cases hd
     case send m => exact absurd rfl (h1 m)
     case closeSend => exact absurd rfl h2
@@ -201,86 +221,86 @@ theorem go_eq (fin : Fin) (w : Wrap.State) (cc : Bool) (srv : Srv) (cs : List CO
     case abort a => exact absurd rfl (h4 a)
     all_goals simp only [go]
   case case19 s cc ss cs md hmd ih =>
-    intro g h
+    intro g h hq
     have hh := rel_header h
     simp only [Wrap.impl] at hmd
     simp only [go, GrpcRef.impl, ← hh, hmd]
-    exact congrArg _ (ih _ h)
+    exact congrArg _ (ih _ h hq)
   case case20 s cc ss cs hmd =>
-    intro g h
+    intro g h hq
     have hh := rel_header h
     simp only [Wrap.impl] at hmd
     simp only [go, GrpcRef.impl, ← hh, hmd]
   case case21 s ss cs ih =>
-    intro g h
+    intro g h hq
     simp only [go]
-    exact congrArg _ (ih _ h)
+    exact congrArg _ (ih _ h hq)
   case case22 s cc tl a cs ih =>
-    intro g h
+    intro g h hq
     simp only [go]
-    exact congrArg _ (congrArg _ (ih _ (rel_abort h a)))
-  case case23 => intro g h; simp only [go]
+    exact congrArg _ (congrArg _ (ih _ (rel_abort h a) trivial))
+  case case23 => intro g h hq; simp only [go]
   case case24 x cc tl hd tl1 h1 h2 h3 =>
-    intro g h
+    intro g h hq
     cases hd
     case header => exact absurd rfl h1
     case abort a => exact absurd rfl (h3 a)
     case closeSend => cases cc <;> first | (exact absurd rfl (h2 rfl)) | (simp only [go])
     all_goals simp only [go]
-  case case25 => intro g h; simp only [go]
+  case case25 => intro g h hq; simp only [go]
   case case26 s cc cs e he ih =>
-    intro g h
+    intro g h hq
     have ht : Wrap.terminal s = GrpcRef.terminal g := h.2.2
     simp only [Wrap.impl] at he
     simp only [go, GrpcRef.impl, ← ht, he]
-    exact congrArg _ (ih _ h)
+    exact congrArg _ (ih _ h hq)
   case case27 s cc cs he =>
-    intro g h
+    intro g h hq
     have ht : Wrap.terminal s = GrpcRef.terminal g := h.2.2
     simp only [Wrap.impl] at he
     simp only [go, GrpcRef.impl, ← ht, he]
   case case28 s cc cs md hmd ih =>
-    intro g h
+    intro g h hq
     have hh : Wrap.header s = GrpcRef.header g := h.1
     simp only [Wrap.impl] at hmd
     simp only [go, GrpcRef.impl, ← hh, hmd]
-    exact congrArg _ (ih _ h)
+    exact congrArg _ (ih _ h hq)
   case case29 s cc cs hmd =>
-    intro g h
+    intro g h hq
     have hh : Wrap.header s = GrpcRef.header g := h.1
     simp only [Wrap.impl] at hmd
     simp only [go, GrpcRef.impl, ← hh, hmd]
   case case30 s cc cs ih =>
-    intro g h
+    intro g h hq
     have hh : Wrap.trailer s = GrpcRef.trailer g := h.2.1
     simp only [go, GrpcRef.impl, Wrap.impl, ← hh]
-    exact congrArg _ (ih _ h)
+    exact congrArg _ (ih _ h hq)
   case case31 s cs ih =>
-    intro g h
+    intro g h hq
     simp only [go]
-    exact congrArg _ (ih _ h)
+    exact congrArg _ (ih _ h hq)
   case case32 x cc hd tl h1 h2 h3 h4 =>
-    intro g h
+    intro g h hq
     cases hd
     case recv => exact absurd rfl h1
     case header => exact absurd rfl h2
     case trailer => exact absurd rfl h3
     case closeSend => cases cc <;> first | (exact absurd rfl (h4 rfl)) | (simp only [go])
     all_goals simp only [go]
-  case case33 => intro g h; simp only [go]
+  case case33 => intro g h hq; simp only [go]
   case case34 s cc cs e he ih =>
-    intro g h
+    intro g h hq
     have ht : Wrap.terminal s = GrpcRef.terminal g := h.2
     simp only [Wrap.impl] at he
     simp only [go, GrpcRef.impl, ← ht, he]
-    exact congrArg _ (ih _ h)
+    exact congrArg _ (ih _ h hq)
   case case35 s cc cs he =>
-    intro g h
+    intro g h hq
     have ht : Wrap.terminal s = GrpcRef.terminal g := h.2
     simp only [Wrap.impl] at he
     simp only [go, GrpcRef.impl, ← ht, he]
   case case36 x cc hd tl h1 =>
-    intro g h
+    intro g h hq
     cases hd
     case recv => exact absurd rfl h1
     all_goals simp only [go]
